@@ -1,6 +1,7 @@
 import PysphVerif.Driver.Common
 import PysphVerif.Model.Stepper
 import PysphVerif.Model.StepperHist
+import PysphVerif.Model.StepperSession
 import PysphVerif.Gen.Timesteps
 /-!
 Line protocol for C04 (times are doubles, bit patterns).
@@ -24,11 +25,15 @@ Line protocol for C04 (times are doubles, bit patterns).
           `G<name>~<n>` (n real particles added to array name between steps)
      answers as `run`, with the object identities in the events:
      `n:<k>` `d:<k>` `c:<c>:<t>:<dt>:<stage>`
+  `session members=<module>~<qualname>~<P>~<id of the rest of the module>|…`
+     the classes compiled one after the other in a fresh process
+     (Model/StepperSession.lean); answers `<wire program>|…`: the pasted body of
+     the module each member ends up driving
   `table`   answers `<class>=<owner>=<wire program>` for every Gen entry
   `steppers` answers `<class>=<methods>=<hooks>` for every Gen stepper entry
 -/
 namespace PysphVerif.Driver.C04
-open PysphVerif.Wire PysphVerif.Stepper PysphVerif.StepperHist
+open PysphVerif.Wire PysphVerif.Stepper PysphVerif.StepperHist PysphVerif.StepperSession
 
 def parseMeth? (s : String) : Option Meth :=
   if s = "i" then some .initialize else (parseNat? s).map Meth.stage
@@ -293,10 +298,31 @@ def handleHist (kv : List (String × String)) : Option String := do
         | _ => ["x:AttributeError"]
       pure (showEvs out.events tail)
 
+/-- `<module>~<qualname>~<program>~<id of the rest of the rendered module>` -/
+def parseMember? (s : String) : Option (IClass String) :=
+  match s.splitOn "~" with
+  | [m, q, p, r] => do
+    let prog ← parseProgram? p
+    if m.isEmpty || q.isEmpty || r.isEmpty then none
+    else pure { modName := m, qualName := q, ownText := prog, rest := r }
+  | _ => none
+
+/-- the digest under which a built module is found: the whole text -/
+def textDigest (g : GenText String) : String := showProgram g.body ++ "#" ++ g.rest
+
+/-- `session members=<member>|<member>|…`: the classes compiled one after the
+other in a fresh process; answers the program of the module each one gets -/
+def handleSession (kv : List (String × String)) : Option String := do
+  let ms ← lookup kv "members"
+  let cs ← (ms.splitOn "|").mapM parseMember?
+  let out := compileSession textDigest [] cs
+  pure ("|".intercalate (out.map (fun g => showProgram g.body)))
+
 def handle (line : String) : String :=
   match tokens line with
   | "run" :: rest => (handleRun (kvs rest)).getD "bad-op"
   | "hist" :: rest => (handleHist (kvs rest)).getD "bad-op"
+  | "session" :: rest => (handleSession (kvs rest)).getD "bad-op"
   | ["table"] =>
     " ".intercalate (Gen.Timesteps.programs.map (fun x => s!"{x.1}={x.2.1}={showProgram x.2.2}"))
   | ["steppers"] =>
